@@ -8,6 +8,8 @@ CONSTANTS
   Marker = 9
   NoStamp = {}
   Reverse = FALSE
+  CellNs = {0, 32767, 32768, 65535, 65541, 1000001}
+  CellRead = "unsigned"
 INVARIANTS
   SameType
   CarriedRestored
